@@ -142,3 +142,14 @@ package directive
 // Package-level variables of the whole repository are written only by initialisers and by the functions listed here
 // (the sync.Once body that fills the keyword table).
 //@ globalwriters [C16, C03] : NewDirectiveType$1
+
+// ---------------------------------------------------------------- body coordinates
+//@ specfn bodyOf(c Coords) []byte
+//@ func (Coords).IsSet
+//@   inline
+//@ func (Coords).Read
+//@   tag C01 C02
+//@   pure
+//@   requires c.file != nil && c.begin <= c.end + 1 && c.end < len(c.file.content)
+//@   ensures len(ret) == c.end + 1 - c.begin
+//@   ghostensures same(ret, bodyOf(c))
